@@ -222,10 +222,15 @@ impl Property for C17 {
                     }
                     let authorised = signer.as_ref() == Some(&owner);
                     let expect_ok = authorised && (adding != member[wi]);
+                    // adding a present / removing an absent address with the owner's authorisation leaves the set as it
+                    // is whether it is reported as an error (today) or as a no-op: not decided by the statement
+                    let undecided = authorised && (adding == member[wi]);
                     let snap0 = snapshot(&env);
                     let ev0 = events_len(&env);
                     let ok = if adding { matches!(ops.try_add_operator(&pool[wi]), Ok(Ok(()))) } else { matches!(ops.try_remove_operator(&pool[wi]), Ok(Ok(()))) };
-                    if expect_ok {
+                    if undecided {
+                        cx.count("either");
+                    } else if expect_ok {
                         cx.count("must_succeed");
                         ensure_p!(ok, "step {} {:?}: owner-authorised change of an {} address refused", step, op, if adding { "absent" } else { "present" });
                         member[wi] = adding;
